@@ -61,6 +61,12 @@ Definition sh_var : sheet :=
            SRule sp (mkSel (Some []) (W "root") []) [] [SDecl [] (W "--x") [] [] (W "y") []; decl (W "$w") (W "$x" ++ [ws] ++ W "!default")] []] [].
 Definition tx_var : str := T " $x: 1; :root{--x:y; $w: $x !default;}".
 
+(* `/` as a token (not in front of `*`) *)
+Definition sh_slash : sheet :=
+  mkSheet [SRule [] (sel1 (W "a")) sp
+             [decl (W "font") (W "12px" ++ [LSlash] ++ W "1.5" ++ [ws] ++ W "a" ++ [ws; LSlash; ws] ++ W "b" ++ [ws; LSlash; LSlash; ws] ++ W "c")] sp] [].
+Definition tx_slash : str := T "a { font: 12px/1.5 a / b // c; }".
+
 (* everything together; the callbacks are those emmet.css_matcher.scan reports for the text *)
 Definition sh_all : sheet :=
   mkSheet
@@ -100,5 +106,8 @@ Lemma ex_com : wf_sheet sh_com = true /\ render sh_com = tx_com.
 Proof. vm_compute. split; reflexivity. Qed.
 Lemma ex_var : wf_sheet sh_var = true /\ render sh_var = tx_var.
 Proof. vm_compute. split; reflexivity. Qed.
+Lemma ex_slash : wf_sheet sh_slash = true /\ render sh_slash = tx_slash /\
+  events sh_slash = [mkEv Selector 0 1 2; mkEv PropertyName 4 8 8; mkEv PropertyValue 10 29 29; mkEv BlockEnd 31 32 31].
+Proof. vm_compute. repeat split; reflexivity. Qed.
 Lemma ex_all : wf_sheet sh_all = true /\ render sh_all = tx_all /\ events sh_all = ev_all.
 Proof. vm_compute. repeat split; reflexivity. Qed.
